@@ -416,9 +416,6 @@ func (vc *VC) havocLvalue(env *SpecEnv, e SpecExpr) error {
 			if !ok || s.Sort != "Slice" {
 				return fmt.Errorf("elems() needs a slice")
 			}
-			if isStruct(sl.Elem()) {
-				return fmt.Errorf("elems() of struct slices unsupported")
-			}
 			ck := elemComp(sl.Elem())
 			es := "(Array Int (Array Int " + vc.sortOf(sl.Elem()) + "))"
 			name := vc.fresh("modarr")
@@ -492,7 +489,7 @@ func (vc *VC) builtin(b *ssa.Builtin, c *ssa.CallCommon, v *ssa.Call, pos token.
 		dst := vc.val(c.Args[0])
 		if dst.Sort == "Slice" {
 			sl := c.Args[0].Type().Underlying().(*types.Slice)
-			if !isStruct(sl.Elem()) {
+			{
 				ck := elemComp(sl.Elem())
 				es := "(Array Int (Array Int " + vc.sortOf(sl.Elem()) + "))"
 				name := vc.fresh("cparr")
@@ -555,18 +552,6 @@ func (vc *VC) appendCall(c *ssa.CallCommon, v *ssa.Call, pos token.Pos) {
 	}
 	sl := c.Args[0].Type().Underlying().(*types.Slice)
 	elem := sl.Elem()
-	if isStruct(elem) {
-		// slices of struct values: abstract (length only)
-		r := vc.havocVal(v)
-		tl := "0"
-		if t.Sort == "Slice" {
-			tl = fmt.Sprintf("(s_len %s)", t.S)
-		}
-		vc.assume(fmt.Sprintf("(= (s_len %s) (+ (s_len %s) %s))", r.S, s.S, tl))
-		vc.newRef()
-		vc.unsupp = append(vc.unsupp, "append to slice of struct values (contents abstracted)")
-		return
-	}
 	es := vc.sortOf(elem)
 	ck := elemComp(elem)
 	cs := "(Array Int (Array Int " + es + "))"
